@@ -3,7 +3,7 @@
 set -u
 PATCH="$1"; ID="$2"; TIER="${3:-quick}"
 cd /repo || exit 2
-if ! git diff --quiet; then echo "/repo has uncommitted changes"; exit 2; fi
+if [ -n "$(git status --short)" ]; then echo "/repo has uncommitted or untracked changes"; git status --short; exit 2; fi
 if ! git apply --check "$PATCH" 2>/dev/null; then
   if ! git apply --3way --check "$PATCH" 2>/dev/null; then echo "PATCH DOES NOT APPLY: $PATCH"; exit 3; fi
   git apply --3way "$PATCH" >/dev/null 2>&1; git reset -q
@@ -14,5 +14,6 @@ cd /verif
 OUT=$(./check "$ID" "$TIER" 2>&1); RC=$?
 echo "$OUT" | grep -E "^VIOLATION|^  key=|MACHINERY" | cut -c1-260 | head -8
 echo "exit=$RC"
-cd /repo && git checkout -q -- . && git clean -qfd rscel/tests 2>/dev/null
+cd /repo && git checkout -q -- . && git clean -qfd rscel rscel-macro extensions wasm python 2>/dev/null
+[ -z "$(git status --short)" ] || { echo "WARNING: /repo is not clean after reverting the seeded change:"; git status --short; }
 exit $RC
